@@ -507,6 +507,92 @@ func onlyConnEntries(es []Entry) bool {
 	return true
 }
 
+// c12Renegotiate: a session in use at a large msize negotiates a smaller one while
+// replies to earlier requests are still on their way out (the writer is stalled, the
+// client has not collected them). Everything the server sends behind the Rversion
+// fits the new msize, however many requests follow.
+func c12Renegotiate(srvMsize, newMsize uint32, pending int, stallAt int, dotu bool) Scenario {
+	name := fmt.Sprintf("renegotiate-in-use %d->%d with %d replies not yet out (writer stalled at +%d) dotu=%v", srvMsize, newMsize, pending, stallAt, dotu)
+	return Scenario{Name: name, Run: func(rc *RunCtx) *Result {
+		res := &Result{Exhaustive: true}
+		var fail string
+		body := func() {
+			fs := NewFS()
+			h := NewSrvH(fs, SrvOpt{Msize: srvMsize, Dotu: dotu})
+			c := h.Connect()
+			ver := "9P2000"
+			if dotu {
+				ver = "9P2000.u"
+			}
+			c.Version(srvMsize, ver)
+			c.Rpc(tattach(1, 0, wire.NOFID, "glenda", 7, dotu))
+			// a few requests answered the ordinary way first: their buffers are recycled
+			for i := 0; i < 3; i++ {
+				c.Rpc(&wire.Msg{Type: wire.Tstat, Tag: uint16(10 + i), Fid: 0})
+			}
+			before := len(c.Collect())
+			if stallAt >= 0 {
+				c.SrvEnd.StallOutgoingAt(c.SrvEnd.WriteOffset() + stallAt)
+			}
+			for i := 0; i < pending; i++ {
+				c.Send(dotu, &wire.Msg{Type: wire.Tstat, Tag: uint16(20 + i), Fid: 0})
+			}
+			vs.Idle()
+			c.Send(false, &wire.Msg{Type: wire.Tversion, Tag: wire.NOTAG, Msize: newMsize, Version: ver})
+			vs.Idle()
+			c.SrvEnd.UnstallOutgoing()
+			vs.Idle()
+			for i := 0; i < pending+6; i++ {
+				k := reqKey{0, uint16(40 + i), 0}
+				var m *wire.Msg
+				switch i % 3 {
+				case 0:
+					fs.Script[k] = &Action{StatName: strings.Repeat("N", 150+i)}
+					m = &wire.Msg{Type: wire.Tstat, Tag: k.tag, Fid: 0}
+				case 1:
+					fs.Script[k] = &Action{Err: "E" + strings.Repeat("e", 200+i)}
+					m = &wire.Msg{Type: wire.Tstat, Tag: k.tag, Fid: 0}
+				default:
+					m = twalk(k.tag, 0, uint32(50+i), "d", "d", "d", "d", "d", "d", "d", "d", "d", "d", "d", "d", "d", "d", "d", "d")
+				}
+				c.Send(dotu, m)
+				vs.Idle()
+			}
+			fr := c.Collect()[before:]
+			seenV := false
+			for _, f := range fr {
+				if f.Msg != nil && f.Msg.Type == wire.Rversion {
+					seenV = true
+					if f.Msg.Msize != newMsize {
+						fail = fmt.Sprintf("Rversion carries msize %d, asked for %d", f.Msg.Msize, newMsize)
+						return
+					}
+					continue
+				}
+				if seenV && uint32(len(f.Raw)) > newMsize {
+					fail = fmt.Sprintf("a reply of %d bytes (%s) was sent behind an Rversion that negotiated msize %d", len(f.Raw), wire.Names[f.Raw[4]], newMsize)
+					return
+				}
+			}
+			if !seenV {
+				fail = "the Tversion in mid-session was not answered"
+			}
+		}
+		x := vs.Run(nil, body, vs.Options{})
+		res.Evals++
+		res.Nontrivial++
+		if len(x.Panics) > 0 {
+			fail = "panic: " + x.Panics[0].Value + " at " + x.Panics[0].Frame
+		} else if len(x.Fails) > 0 && fail == "" {
+			fail = "harness: " + x.Fails[0]
+		}
+		if fail != "" {
+			res.Findings = append(res.Findings, Finding{Sig: "C12/renegotiate/" + sigWords(fail), Msg: name + ": " + fail})
+		}
+		return res
+	}}
+}
+
 func c12Scenarios(tier string) []Scenario {
 	var out []Scenario
 	sms := []uint32{0, 23, 24, 25, 32, 256, 8216, 65560, 1<<20 + 24}
@@ -533,6 +619,13 @@ func c12Scenarios(tier string) []Scenario {
 		out = append(out, c12Pipelined(pr[0], pr[1], false), c12Pipelined(pr[0], pr[1], true))
 	}
 	out = append(out, c12RefusedVersion(false), c12RefusedVersion(true))
+	i := 0
+	for _, pending := range []int{0, 1, 3} {
+		for _, at := range []int{-1, 0, 70, 140} {
+			i++
+			out = append(out, c12Renegotiate(8216, []uint32{64, 256}[i%2], pending, at, i%3 == 0))
+		}
+	}
 	out = append(out, c12ClientScenarios(tier)...)
 	return out
 }
